@@ -57,3 +57,26 @@ class ParenOnlyIndenter(TreeIndenter):
     OPEN_PAREN_types = ['LPAR']
     CLOSE_PAREN_types = ['RPAR']
     tab_len = 4
+
+
+class SwallowHash:
+    """a post-lexer that asks the lexer to keep the otherwise unused terminal HASH (always_accept) and drops its tokens"""
+    always_accept = ('HASH',)
+
+    def process(self, stream):
+        return (t for t in stream if t.type != 'HASH')
+
+
+class PassThrough:
+    always_accept = ()
+
+    def process(self, stream):
+        return stream
+
+
+def widen_c(t):
+    """an edit_terminals callback (module level: picklable by reference): terminal C must be followed by a d.  Deliberately not
+    idempotent: applied twice it asks for two of them"""
+    if t.name == 'C':
+        from lark.lexer import PatternRE
+        t.pattern = PatternRE(t.pattern.value + 'd')
